@@ -222,7 +222,7 @@ pub fn c05(tier: &str) -> Report {
     let th = tier == "thorough";
     let mut rep = Report::new("C05", tier, "fault_enumeration");
     let mut cells: Vec<(C05Cell, usize)> = Vec::new();
-    let ns: Vec<usize> = if th { vec![3, 4, 5, 6] } else { vec![3, 4] };
+    let ns: Vec<usize> = if th { vec![3, 4, 5, 6, 7] } else { vec![3, 4, 5] };
     for &n in &ns {
         for phase in [0u64, 1, 17] {
             // every split shape up to symmetry with at least one side >= 2
@@ -230,15 +230,14 @@ pub fn c05(tier: &str) -> Report {
                 if (n - side_a).max(side_a) < 2 {
                     continue;
                 }
-                let starts: Vec<u64> = if th { (0..(4 * n as u64)).collect() } else { (0..(4 * n as u64)).step_by(3).collect() };
+                let starts: Vec<u64> = if th { (0..(4 * n as u64)).collect() } else { (0..(4 * n as u64)).step_by(2).collect() };
                 // heal instants: swept over one announce-to-down period
-                let extras: Vec<u64> = if th { (0..=ANNOUNCE_DOWN).step_by(10).chain([7 * PERIOD]).collect() } else { vec![0u64, PERIOD, 7 * PERIOD, 130, 255, 380] };
+                let extras: Vec<u64> = if th { (0..=ANNOUNCE_DOWN).step_by(10).chain([7 * PERIOD]).collect() } else { (0..=ANNOUNCE_DOWN).step_by(50).chain([7 * PERIOD]).collect() };
                 for (si, &start_event) in starts.iter().enumerate() {
                     for (ei, extra) in extras.iter().enumerate() {
-                        if !th && ei >= 3 && si % 2 == 1 {
-                            continue;
-                        }
-                        let d = if th { usize::from(n <= 4 && ei % 10 == 0) } else { usize::from(n == 3 && si % 4 == 0 && ei < 2) };
+                        // one deviation (latency / tie-break / RNG answer) in the first
+                        // announce-to-down period after the heal, on a regular sub-grid
+                        let d = if th { usize::from(n <= 5 && ei % 5 == 0) } else { usize::from(n <= 4 || (si % 2 == 0 && ei % 4 == 0)) };
                         cells.push((C05Cell { n, side_a, phase, start_event, extra: *extra, asymmetric: false, bumped: false }, d));
                         if si % 2 == 0 && ei < 3 {
                             cells.push((C05Cell { n, side_a, phase, start_event, extra: *extra, asymmetric: false, bumped: true }, 0));
@@ -256,7 +255,7 @@ pub fn c05(tier: &str) -> Report {
         .par_iter()
         .map(|(c, d)| {
             let f = |devs: &BTreeMap<usize, usize>| run_c05(c, devs);
-            let (st, vs) = explore_deviations(&f, *d, if th { 200_000 } else { 3_000 });
+            let (st, vs) = explore_deviations(&f, *d, if th { 200_000 } else { 20_000 });
             (c.label(), st, vs)
         })
         .collect();
